@@ -56,6 +56,14 @@ func stagesOf(c *core.Ctx, t *gen.Node, e error, wire bool) []stage {
 	// a process that knows some of the types and not others (e.g. the barrier but not what it hides)
 	sub := subset(c.R, keys)
 	add("partly-unknowing", func() error { return sim.Transfer(e, []sim.Proc{{Forget: sub}}) })
+	// messages as other versions of the library would send them: barriers under their previous
+	// type name with a plain-text message; every structured payload missing
+	if b, n := sim.OldPeer(sim.EncBytes(e)); n > 0 {
+		add("from-old-peer", func() error { return sim.DecBytes(b) })
+	}
+	if b, n := sim.DropPayloads(sim.EncBytes(e)); n > 0 {
+		add("payloads-dropped", func() error { return sim.DecBytes(b) })
+	}
 	return out
 }
 
@@ -149,5 +157,5 @@ func runC03(c *core.Ctx) {
 }
 
 func isDomainName(t model.Tok) bool {
-	return t.Idx == 0 && (t.Kind == "domain" || t.Kind == "handleddomain" || t.Kind == "handleddommsg")
+	return t.Idx == 0 && (t.Kind == "domain" || t.Kind == "domainraw" || t.Kind == "handleddomain" || t.Kind == "handleddommsg")
 }
